@@ -1,6 +1,7 @@
 import WfModel.Serial
 import WfProofs.RunnerTimeout
 import WfProps.C04
+import WfProps.C02
 /-!
 # C31 — timeout and cancellation stop the run cleanly and keep it resumable
 
@@ -13,7 +14,12 @@ import WfProps.C04
   in the stream, no worker left, and nothing whatsoever happens afterwards (no further step, no
   further publication) — so a run that finished first is never timed out;
 * the run timeout is the only source of `TickTimeout`; it is processed, and the run halted with
-  `timeout`, only at a clock value ≥ start + timeout.
+  `timeout`, only at a clock value ≥ start + timeout;
+* a failed attempt whose retry is due at once never leaves the reducer's reach: the re-queue goes
+  to the tick buffer (not to the timer heap), the buffer is drained before the mailbox — where a
+  `TickCancelRun` may already wait — is looked at, and reducing the re-queue tick puts the event
+  back into the step's tables; so the state the cancel tick keeps (and `ctx.to_dict()` writes)
+  holds it.
 -/
 set_option linter.unusedVariables false
 open Engine
@@ -140,3 +146,75 @@ example :
       [.drain, .external .cancelRun, .pull, .drain, .workerDone 0 0 [.result none], .drain]
     r.outcome = some (.halted .cancelledByUser) ∧ r.stream.getLast? = some .cancelled ∧
       (r.st.workers 0).inProg.length = 1 := by decide
+
+
+/-! ## a retry that is due at once is in the broker state before a cancel can be handled -/
+
+/-- `process_command`: a re-queue without a positive delay — a retry whose policy answers 0 as well
+as a plain `delay = None` — is appended to the tick buffer; timer heap, sequence counter, workers,
+stream and state are untouched -/
+theorem C31_immediate_retry_buffered (r : Runner) (att : Attempt) (step : Option Nat) :
+    execCmd r (.queueEvent att step (some 0)) = { r with buf := r.buf ++ [.addEvent att step] } ∧
+    execCmd r (.queueEvent att step none) = { r with buf := r.buf ++ [.addEvent att step] } :=
+  ⟨rfl, rfl⟩
+
+/-- while a tick is buffered the loop does not look at the mailbox (where a `TickCancelRun` may
+wait), takes in no other worker's result and fires no timer: the buffer is drained first -/
+theorem C31_buffer_drained_before_mailbox (cfg : Cfg) (pol : Policy) (r : Runner) (t : Tick) (rest : List Tick)
+    (hb : r.buf = t :: rest) :
+    r.step cfg pol .pull = r ∧ r.step cfg pol .timer = r ∧
+    ∀ s w res, r.step cfg pol (.workerDone s w res) = r := by
+  refine ⟨?_, ?_, ?_⟩
+  · unfold Runner.step; split
+    · rfl
+    · simp [hb]
+  · unfold Runner.step; split
+    · rfl
+    · simp [hb]
+  · intro s w res
+    unfold Runner.step; split
+    · rfl
+    · simp [hb]
+
+/-- reducing the re-queue tick of a retry (`TickAddEvent` addressed to the step) puts the event
+back into that step's tables: it holds one attempt more (in progress or queued) — or as many more
+as it had waiters for the event -/
+theorem C31_requeue_tick_held (cfg : Cfg) (hwf : cfg.WF) (pol : Policy) (att : Attempt) (c : StepCfg)
+    (hc : c ∈ cfg.steps) (hacc : c.accepted.contains att.ev.ty = true) (st : State) (now : Int)
+    (hinv : IdsInv cfg st) :
+    size (st.workers c.name) + 1 ≤
+      size ((reduce cfg pol (.addEvent att (some c.name)) st now).1.workers c.name) := by
+  have h1 : (reduce cfg pol (.addEvent att (some c.name)) st now).1 =
+      (processAddEvent cfg att (some c.name) st now).1 := by
+    simp only [reduce]; split <;> rfl
+  rw [h1, C02_route_count cfg hwf att (some c.name) st now hinv c hc]
+  unfold C02.recipients
+  split
+  · omega
+  · have hm : att.ev.ty ∈ c.accepted := by simpa using hacc
+    simp [hm]
+
+/-! Non-vacuity: a step whose policy retries at once; the attempt fails while a cancel is already
+in the mailbox.  The result tick re-queues through the buffer (heap empty; for that one tick the
+step's tables are empty, hence the idle check behind it), the retry is in progress again before
+the cancel tick can be pulled, and the halted run's state still holds it. -/
+def C31.retryCfg : Cfg := { steps := [{ name := 0, accepted := [0], numWorkers := 1, hasRetry := true }] }
+def C31.atOnce : Policy := fun _ _ _ _ => .retry 0
+def C31.race : List Act :=
+  [.drain, .external .cancelRun, .workerDone 0 0 [.failed 9 0], .drain]
+
+example : C31.retryCfg.WF := by simp [Cfg.WF, Cfg.names, C31.retryCfg]
+example :
+    let r := Runner.run C31.retryCfg C31.atOnce (Runner.init C31.retryCfg initState 0 (some C31.start) none) C31.race
+    r.outcome = none ∧ r.heap = [] ∧ r.mailbox = [.cancelRun] ∧
+    r.buf = [.addEvent { ev := C31.start, attempts := some 1, firstAt := some 0, lastExc := some 9,
+                         lastFailedAt := some 0 } (some 0), .idleCheck] ∧
+    (r.st.workers 0).inProg = [] ∧
+    -- the mailbox is not looked at while the re-queue tick is buffered
+    (r.step C31.retryCfg C31.atOnce .pull).mailbox = [.cancelRun] ∧
+    (r.step C31.retryCfg C31.atOnce .pull).buf = r.buf := by decide
+example :
+    let r := Runner.run C31.retryCfg C31.atOnce (Runner.init C31.retryCfg initState 0 (some C31.start) none)
+      (C31.race ++ [.pull, .drain, .drain, .pull, .drain])
+    r.outcome = some (.halted .cancelledByUser) ∧ r.stream.getLast? = some .cancelled ∧
+    ((r.st.workers 0).inProg.map (·.ev)) = [C31.start] ∧ ((r.st.workers 0).inProg.map (·.attempts)) = [1] := by decide
